@@ -74,8 +74,8 @@ fn bases() -> Vec<Base> {
 }
 
 pub fn run(mut run: Run) -> i32 {
-    let w: i64 = run.ctx.pick(96, 384);
-    run.rule = "for each of 14 ill-conditioned base configurations the query point ranges over ALL w x w points of the ulp lattice around the window centre (quick w=96, thorough w=384): \
+    let w: i64 = run.ctx.pick(96, 768);
+    run.rule = "for each of 14 ill-conditioned base configurations the query point ranges over ALL w x w points of the ulp lattice around the window centre (quick w=96, thorough w=768): \
         orient2d (f64 and f32), Line intersects Coord, Line intersects Line, line_intersection is_some, coord_pos_relative_to_ring, Polygon/Triangle/Rect coordinate_position and contains, winding_order, \
         quick_hull/graham_hull vertex sets, all against exact big-integer arithmetic on the dyadic values; integer kernels on all lattice triples at large magnitude; \
         distinct_nontrivial = number of window points where the naive f64 determinant has the wrong sign (the inputs where robustness matters)"
